@@ -53,8 +53,9 @@ def systematic_configs(info):
     return [(l, c.encode()) for (l, c) in cfgs]
 
 
-def script_for(ini, ncalls, rng):
-    lines = list(SINKS) + [ENVLINE, "ini\t" + hexs(ini)]
+def script_for(ini, ncalls, rng, stdin_closed=False):
+    """stdin_closed: the caller runs without descriptor 0 (daemons): the first descriptor the library opens IS 0"""
+    lines = list(SINKS) + [ENVLINE, "ini\t" + hexs(ini)] + (["stdin\tclosed"] if stdin_closed else [])
     for k in range(ncalls + 1):           # call 0 is the warm-up
         argv = [b"prog", b"arg%d" % k] + ([b"x" * 700] if k % 3 == 2 else [])
         api = "execve" if k % 2 == 0 else "execv"
@@ -150,6 +151,9 @@ def check(run):
         jobs.append((label, ini, "ts", 3 if quick else 8, None))
         if i % (4 if quick else 1) == 0:
             jobs.append((label, ini, "nts", 3, None))
+    for (label, ini) in syscfg:     # the same without descriptor 0 in the caller, for everything that opens a descriptor
+        if label.startswith("output:") or label in ("file-template", "ident-template", "ds:cgroup", "ds:rpname", "ds:domain"):
+            jobs.append(("nofd0:" + label, ini, "ts", 3, None))
     gencfg = []
     for i in range(40 if quick else 3000):
         ini, kind = gen_config(rng, volatile=True)
@@ -164,7 +168,7 @@ def check(run):
 
     def job(a):
         idx, (label, ini, v, ncalls, fault) = a
-        script = script_for(ini, ncalls, rng)
+        script = script_for(ini, ncalls, rng, stdin_closed=label.startswith("nofd0:"))
         r = run_life(run, libs[v], script, "c16-%d" % idx, fault=fault, timeout=300)
         finds, n = judge(run, libs[v], r, 2 if fault else 1, label, ini, fault)
         return (label, ini, v, ncalls, fault, script, finds, n, set(x for x in observed_sites(r)))
